@@ -13,6 +13,8 @@ import AGH.Lemmas.RewritesDns
 import AGH.Lemmas.RewritesMonitor
 import AGH.Lemmas.RewritesTable
 import AGH.Lemmas.RewritesChoice
+import AGH.Lemmas.RewritesLock
+import AGH.Gen.C06Sites
 namespace AGH.C06
 open AGH AGH.Bytes
 
@@ -566,6 +568,55 @@ theorem C06_evaluation_atomic (srt : Bytes → Sorter) (states : List (List Entr
     intro hl hh
     rw [← ho]
     exact C06_meets_spec_lower_names srt t h q hl hh
+
+/-! ## Translator tie: which lock each access of the table holds (regenerated per run)
+
+`evalDuring` (one table state per evaluation) is not a fact about the rewrite
+logic but about `confMu`.  The lock-machine theorems of `Lemmas/RewritesLock`
+say what the discipline buys; the three theorems below say that the CURRENT
+source follows it.  `Gen.C06.*` is rewritten from the typed syntax of
+`internal/filtering` on every run (`extract/cmd/c06`). -/
+
+/-- Rows `(function, read/write, guard)` follow the discipline: a write holds
+the write lock, a read holds either; functions in `ctor` run before the filter
+is published (construction) and are exempt. -/
+def Disciplined (ctor : List String) (rows : List (String × String × String)) : Bool :=
+  rows.all fun r => ctor.contains r.1 ||
+    (if r.2.1 == "write" then r.2.2 == "W" else r.2.2 == "W" || r.2.2 == "R")
+
+/-- Every access to `Config.Rewrites` in the package is under `confMu` (writes
+under the write lock); the one exemption, `prepareRewrites`, is called from the
+constructor `New` only. -/
+theorem C06_T_table_access_disciplined :
+    Disciplined ["DNSFilter.prepareRewrites"] Gen.C06.tableSites = true ∧
+      Gen.C06.prepareCallers = ["New"] ∧
+      ("DNSFilter.processRewrites", "read", "R") ∈ Gen.C06.tableSites := by
+  decide
+
+/-- The evaluation takes the read lock first, releases it only by the deferred
+unlock, and both table lookups (before and inside the CNAME loop) read the
+field itself — not a snapshot taken under an earlier hold. -/
+theorem C06_T_evaluation_one_hold :
+    Gen.C06.evalHeadLocked = true ∧ Gen.C06.evalOtherLockOps = 0 ∧
+      Gen.C06.lookupSites = [("DNSFilter.processRewrites", true), ("DNSFilter.processRewrites", true)] := by
+  decide
+
+/-- The CNAME loop does its steps in the order of `chase`: the two exits (name
+onto itself / wildcard self-match), then `host = answer`, the visited test with
+its exit, the insertion, the next lookup.  `C06_terminates` rests on the visited
+test preceding the lookup. -/
+theorem C06_T_loop_order :
+    Gen.C06.loopEvents = ["return", "break", "assign-host", "has", "return", "add", "lookup"] := by
+  decide
+
+/-- What the discipline buys, for every schedule the readers–writer lock
+accepts: all reads made under one read hold see the table version current when
+the hold began, and no write is accepted while a reader holds. -/
+theorem C06_lock_discipline_gives_one_state (es : List Lock.Ev) (s : Lock.LS)
+    (h : Lock.run {} es = some s) :
+    (∀ r ∈ s.seen, r.2.1 = r.2.2) ∧ (s.held ≠ [] → ∀ t, Lock.step s (.write t) = none) :=
+  ⟨Lock.reads_of_one_hold_one_version es s h,
+   fun hh t => Lock.no_write_inside_read_hold es s t h hh⟩
 
 /-! ## The rewrite stage in front of the rule engines -/
 
